@@ -184,6 +184,9 @@ def register(reg):
         if c == 1:
             eng.raise_(st, "httpcore._exceptions.PoolTimeout", tag={"from": "event.wait"})
         eng.assume(st, eng.heap_read(st, self_v, "Evt.flag").t)
+        h = getattr(it.contract, "after_event_wait", None)
+        if h is not None and it.depth == 0:
+            h(it.ctx, self_v)
         return NONE
 
     # ---- semaphore ------------------------------------------------------------------------
